@@ -122,24 +122,44 @@ def replayRemoveImages (ix : Idx) : List Intent → Idx
     let ix := match it.proposed with | some d => removeDocFromIndexes ix it.id d | none => ix
     replayRemoveImages ix rest
 
-/-- second loop: the stored document is authoritative -/
+/-- one step of the second loop: the stored document is authoritative -/
+def reindexOne (s : State) (id : Nat) : State :=
+  match lookupD s.docs id with
+  | some cur =>
+    let ix := insertDocIntoIndexes (removeDocFromIndexes s.ix id cur) id cur
+    { s with ix := ix, maxId := max s.maxId id, ids := addId s.ids id }
+  | none =>
+    { s with ix := { s.ix with hn := s.ix.hn.map (fun h => hnRemove h id) }, ids := s.ids.filter (fun i => i != id) }
+
+/-- second loop of `reconcile_mutation_intents`, ascending ids -/
 def replayReindex (s : State) : List Nat → State
   | [] => s
+  | id :: rest => replayReindex (reindexOne s id) rest
+
+/-- how `reconcile_mutation_intents` is organised: two global passes (un-index the images of *all* intents,
+then re-index document by document — what the code does), or one fused pass per document (un-index this
+document's own images and re-index it at once — not what the code does; kept to state what would break) -/
+inductive ReplayMode where
+  | twoPass | fused
+  deriving DecidableEq, Repr
+
+def replayFusedLoop (s : State) (intents : List Intent) : List Nat → State
+  | [] => s
   | id :: rest =>
-    match lookupD s.docs id with
-    | some cur =>
-      let ix := insertDocIntoIndexes (removeDocFromIndexes s.ix id cur) id cur
-      replayReindex { s with ix := ix, maxId := max s.maxId id, ids := addId s.ids id } rest
-    | none =>
-      replayReindex { s with ix := { s.ix with hn := s.ix.hn.map (fun h => hnRemove h id) }, ids := s.ids.filter (fun i => i != id) } rest
+    let s := { s with ix := replayRemoveImages s.ix (intents.filter (fun it => it.id == id)) }
+    replayFusedLoop (reindexOne s id) intents rest
 
 /-- `replay_mutation_intents` -/
-def replay (s : State) (intents : List Intent) : State :=
+def replayWith (mode : ReplayMode) (s : State) (intents : List Intent) : State :=
   if intents.isEmpty then s
   else
-    let s := { s with ix := replayRemoveImages s.ix intents }
-    let s := replayReindex s (sortAsc (intents.map (·.id)).eraseDups)
+    let ids := sortAsc (intents.map (·.id)).eraseDups
+    let s := match mode with
+      | .twoPass => replayReindex { s with ix := replayRemoveImages s.ix intents } ids
+      | .fused => replayFusedLoop s intents ids
     { s with dirty := true }
+
+def replay (s : State) (intents : List Intent) : State := replayWith .twoPass s intents
 
 def scanOne (s : State) (id : Nat) (d : Doc) : State :=
   let isNew := !s.ids.contains id
@@ -154,12 +174,19 @@ inductive Phase where
   | replay | scan
   deriving DecidableEq, Repr
 
-/-- the order `Collection::open` has them in (kept equal to the generated `Gen.CollOrder.recoveryPhases`
-by `gen_recover_shape`) -/
+/-- the order `Collection::open` has them in (kept equal to the generated `Gen.CollOrder.recoveryOrder`
+by `gen_recover_order`) -/
 def codePhases : List Phase := [.replay, .scan]
 
-def runPhase (x : DState) (s : State) : Phase → State
-  | .replay => replay s x.intents
+/-- the two structural parameters of recovery that the translator extracts from the code -/
+structure RecCfg where
+  phases : List Phase
+  mode : ReplayMode
+
+def codeCfg : RecCfg := { phases := codePhases, mode := .twoPass }
+
+def runPhase (cfg : RecCfg) (x : DState) (s : State) : Phase → State
+  | .replay => replayWith cfg.mode s x.intents
   | .scan => repairScan s x.checkpoint
 
 /-- what a fresh process loads: ids, indexes and the allocator of the last flush; the document objects
@@ -169,17 +196,17 @@ def crashLoad (x : DState) : DState :=
                             dirty := false, poisoned := false } }
 
 /-- the recovery phases of `Collection::open` (after the callback), then the flush `open_collection` ends with -/
-def recoverWith (phases : List Phase) (x : DState) : DState :=
-  dflush { x with s := phases.foldl (runPhase x) x.s }
+def recoverWith (cfg : RecCfg) (x : DState) : DState :=
+  dflush { x with s := cfg.phases.foldl (runPhase cfg x) x.s }
 
-def recover (x : DState) : DState := recoverWith codePhases x
+def recover (x : DState) : DState := recoverWith codeCfg x
 
 inductive DOp where
   | op (o : Op)
   /-- power loss at this point, then `open_collection` -/
   | crash
 
-def dstepWith (phases : List Phase) (x : DState) : DOp → DState × Out
+def dstepWith (cfg : RecCfg) (x : DState) : DOp → DState × Out
   | .op .flush => if x.s.poisoned then (x, .err .state) else (dflush x, .ok)
   | .op .reopen =>
     if x.s.poisoned then (x, .err .state)
@@ -189,14 +216,14 @@ def dstepWith (phases : List Phase) (x : DState) : DOp → DState × Out
   | .op o =>
     let r := step x.s o
     ({ x with s := r.1, intents := match intentOf x.s o with | some it => x.intents ++ [it] | none => x.intents }, r.2)
-  | .crash => (recoverWith phases (crashLoad x), .ok)
+  | .crash => (recoverWith cfg (crashLoad x), .ok)
 
-def dstep (x : DState) (o : DOp) : DState × Out := dstepWith codePhases x o
+def dstep (x : DState) (o : DOp) : DState × Out := dstepWith codeCfg x o
 
-def drunWith (phases : List Phase) (x : DState) : List DOp → DState
+def drunWith (cfg : RecCfg) (x : DState) : List DOp → DState
   | [] => x
-  | o :: rest => drunWith phases (dstepWith phases x o).1 rest
+  | o :: rest => drunWith cfg (dstepWith cfg x o).1 rest
 
-def drun (x : DState) (ops : List DOp) : DState := drunWith codePhases x ops
+def drun (x : DState) (ops : List DOp) : DState := drunWith codeCfg x ops
 
 end AndaVerif.Collection
